@@ -1,5 +1,17 @@
 /-
-C09 — property theorems. Model: `HydroVerif/Model/C09.lean`.
+C09 — property theorems. Model: `HydroVerif/Model/C09.lean`; lemmas: `Lemmas/C09.lean`, `Lemmas/C09Body.lean`.
+
+Clause of the property                                   | theorems                                                   | outside the theorems
+---------------------------------------------------------|------------------------------------------------------------|---------------------
+header comments come back unchanged in the dictionary    | writerKey_id, readerStrip_headLine, h2cElem_headLine, h2cLoop_preserves, readHeader_lookup, lookup_dictSet_self, lookup_dictSet_other | python `re` (modelled as list functions, compared on every generated header); system lines are parameters
+recorded row and column counts are returned              | readHeader_lookup at keys nrow / ncol (example: whole header evaluated) | -
+header block / column line / body are separated correctly | splitFile_written (rows starting with `#` stay rows)        | file objects, `readline`
+same column names                                        | colnames_roundtrip, writeRow_cols, quoteField_plain         | `re.sub("\\.", "_")` on names (dots are outside the name alphabet)
+same number of rows, equal non-empty text values         | parseRow_writeRow (any text: commas, quotes, colons, hashes, any number of fields), field_closed | pandas type inference and NA handling (oracle end-to-end); embedded line breaks are outside the quantifier
+numeric values equal to the float-format precision       | -                                                          | number formatting and parsing are pandas' (oracle end-to-end with the format's precision)
+plain file, any accepted name                            | plain_roundtrip                                            | the file system
+zip-compressed under any accepted file name              | compress_roundtrip, suffix_stem_zip (candidate list and KEY_LENGTH_MAX regenerated from csv.py) | zipfile
+member of a caller-supplied archive in a sub-folder      | - (the member name is the given name: oracle `e2e/archive_member`, multi-member archives) | zipfile
 -/
 import HydroVerif.Lemmas.C09
 import HydroVerif.Lemmas.C09Body
